@@ -22,6 +22,8 @@ type c08Case struct {
 	List  []gen.Bytes `json:"list,omitempty"`
 	// WordLists: the argument of a ToStrs call given as word lists (elements that are NOT whole bytes)
 	WordLists [][]byte `json:"word_lists,omitempty"`
+	// Prefixes: a ToStrs call whose elements are base[:k] of ONE shared word list (c08SharedBase), k as listed
+	Prefixes []int `json:"shared_prefixes,omitempty"`
 	// big strings are named by their byte length (and the flipped byte of the second string)
 	Big  int `json:"big_len,omitempty"`
 	Flip int `json:"flip_byte,omitempty"`
@@ -33,7 +35,7 @@ func init() {
 		Word32: true,
 		Level:  "exploration",
 		Rule: "E1 bounded-exhaustive enumeration, per width n in {1,2,4,8}: (split) every string of length ≤2 over all 256 byte values and of length ≤L over {00,01,7f,80,ff,a5,5a,'a'}: FromStr length and every word, Get at every index, ToStr∘FromStr; " +
-			"(pack) ToStr on every list of in-range words up to a width-dependent length (every partial-last-byte shape); (diff) FirstDiff on every ordered pair of strings of length ≤D over 6 bytes and of length ≤3 over {c3,a9,a8,'a'} and {e6,97,a5,a6} (well-formed 2- and 3-byte UTF-8 sequences differing in a continuation byte) × every from in [0, words+2] × every end in [-1, words+2]; (diff, far windows) the same pairs with from and/or end far beyond both strings: 2^31, 2^32, 2^60, 2^61, 2^62, 3·2^61 (each ±1), MaxInt-1, MaxInt - every from in [0, words+2] ∪ far × every far end, and every far from × every end in [-1, words+2]; (diff, long) FirstDiff on every ordered pair of 48 strings of 8..19 bytes (4 stem variants × 3 tails) and on single-byte flips of bases of EVERY length 1..40 at every byte position × every from × 7 ends; (big) strings of EVERY length 2..600 bytes and of every threshold length up to 2^16 (thorough 2^20) bytes: FromStr/ToStr/Get and FirstDiff against copies with one flipped byte; (lists) ToStrs on every list of ≤3 word lists over every partial-last-byte shape (lengths 0..2·(8/n)+1: elements that are not whole bytes); FromStrs/ToStrs element-wise (and the FromStrs elements once more after appending a byte to each: results must not alias each other) on every list of ≤3 strings over 4 strings, and on generated lists of every threshold size (round numbers ±1) from 1000 to 70000 strings. " +
+			"(pack) ToStr on every list of in-range words up to a width-dependent length (every partial-last-byte shape); (diff) FirstDiff on every ordered pair of strings of length ≤D over 6 bytes and of length ≤3 over {c3,a9,a8,'a'} and {e6,97,a5,a6} (well-formed 2- and 3-byte UTF-8 sequences differing in a continuation byte) × every from in [0, words+2] × every end in [-1, words+2]; (diff, far windows) the same pairs with from and/or end far beyond both strings: 2^31, 2^32, 2^60, 2^61, 2^62, 3·2^61 (each ±1), MaxInt-1, MaxInt - every from in [0, words+2] ∪ far × every far end, and every far from × every end in [-1, words+2]; (diff, long) FirstDiff on every ordered pair of 48 strings of 8..19 bytes (4 stem variants × 3 tails) and on single-byte flips of bases of EVERY length 1..40 at every byte position × every from × 7 ends; (big) strings of EVERY length 2..600 bytes and of every threshold length up to 2^16 (thorough 2^20) bytes: FromStr/ToStr/Get and FirstDiff against copies with one flipped byte; (lists) ToStrs on every list of ≤3 word lists over every partial-last-byte shape (lengths 0..2·(8/n)+1: elements that are not whole bytes), and on every list of ≤3 PREFIXES OF ONE word list (elements sharing memory: the same list twice, a list and its prefix); FromStrs/ToStrs element-wise (and the FromStrs elements once more after appending a byte to each: results must not alias each other) on every list of ≤3 strings over 4 strings, and on generated lists of every threshold size (round numbers ±1) from 1000 to 70000 strings. " +
 			"Oracle: the string's '0'/'1' rendering cut into n-bit groups. A case is one call; non-trivial when the string/list is non-empty.",
 		Assumptions: []string{"from < 0 and end < -1 are outside the statement and not called; long strings over the full byte alphabet are not enumerated"},
 		Run:         c08Run,
@@ -584,6 +586,24 @@ func c08Run(c *mc.Ctx) {
 		c.Count(cnt, cnt-1)
 		c.Add("tostrs_word_list_cases", cnt)
 	}
+	// (lists sharing memory) ToStrs on every list of <= 3 elements that are PREFIXES OF ONE word list (the same
+	// list twice, a list and its own prefix): a caller may hand over views of one buffer; element-wise means
+	// that every element is packed from the words the caller passed, whatever was packed before it
+	for _, n := range c08Widths {
+		nb := len(c08SharedBase(n))
+		var cnt int64
+		for l := 1; l <= 3; l++ {
+			gen.Product(nb+1, l, func(ix []int) {
+				if g, w := c08ToStrsShared(n, ix); g != w {
+					c.Fail(5<<50|int64(n)<<40|cnt, "ToStrsShared", "ToStrs/shared-prefixes", c08Case{Width: n, Prefixes: append([]int(nil), ix...)}, g, w)
+				}
+				cnt++
+			})
+			c.Expect(gen.PowInt(nb+1, l))
+		}
+		c.Count(cnt, cnt)
+		c.Add("tostrs_shared_prefix_cases", cnt)
+	}
 	c.Expect(int64(len(lists)) * 4 * 2)
 	for _, n := range c08Widths {
 		for li, ks := range lists {
@@ -648,6 +668,34 @@ func c08ToStrsWords(n int, lists [][]byte) (got, want string) {
 	for i, ws := range lists {
 		w = append(w, refPack(ws, n))
 		arg[i] = gen.DirtyBytes(ws)
+	}
+	g, p := func() (r []string, p string) {
+		defer func() {
+			if e := recover(); e != nil {
+				p = fmt.Sprint("panic: ", e)
+			}
+		}()
+		return bitword.BitWord[n].ToStrs(arg), ""
+	}()
+	return p + fmt.Sprintf("%d %x", len(g), g), fmt.Sprintf("%d %x", len(w), w)
+}
+
+// c08SharedBase: the one word list whose prefixes are the elements of the shared-memory ToStrs family.
+func c08SharedBase(n int) []byte {
+	wl := c08WordLists(n)
+	return wl[len(wl)-1]
+}
+
+// c08ToStrsShared judges ToStrs on [base[:k] for k in ks], all views of ONE array, and ToStr on the same
+// array once more afterwards.
+func c08ToStrsShared(n int, ks []int) (got, want string) {
+	pristine := c08SharedBase(n)
+	base := append([]byte(nil), pristine...)
+	var w []string
+	arg := make([][]byte, len(ks))
+	for i, k := range ks {
+		w = append(w, refPack(pristine[:k], n))
+		arg[i] = base[:k]
 	}
 	g, p := func() (r []string, p string) {
 		defer func() {
@@ -789,6 +837,8 @@ func c08Judge(kind string, cs c08Case) (got, want string) {
 		return p + fmt.Sprint(len(g), g), fmt.Sprint(len(w), w)
 	case "ToStrsWords":
 		return c08ToStrsWords(n, cs.WordLists)
+	case "ToStrsShared":
+		return c08ToStrsShared(n, cs.Prefixes)
 	case "ToStrs":
 		ks := gen.StringsOf(cs.List)
 		var w [][]byte
